@@ -88,3 +88,41 @@ PEER_VARIANT = Contract(
     ],
     frame=[], props=["C19"],
 )
+
+
+# ---------------------------------------------------------------- authentication parameters: pre-shared-key identities are swapped
+import ast                                                                        # noqa: E402
+
+
+def auth_block(fn):
+    found = [n for n in ast.walk(fn) if isinstance(n, ast.If) and ast.unparse(n.test) == "auth is None"]
+    return found[:1] if len(found) == 1 else []
+
+
+def key(kind, node):
+    return f"params['vpnconn_psk_{kind}_' + name + '_' + {node}.name]"
+
+
+LEFT_T = "('IP' if auth['left_id'] == '' else 'CUSTOM')"
+RIGHT_T = "('IP' if auth['right_id'] == '' else 'CUSTOM')"
+AUTH_PARAMS = Contract(
+    target=f"{TUNNEL}::VMTunnel.__init__", name="VMTunnel.__init__#auth_params", block=("auth_params", auth_block),
+    params={"auth": Map(STR, STR), "params": Ref("Params"), "name": STR, "node1": Ref("VMNode"), "node2": Ref("VMNode")},
+    requires=["'type' in auth", "node1.name != node2.name",
+              # keys of the two end points differ in their last component only: names do not contain each other as suffixes
+              "not (name + '_' + node1.name).endswith('_' + node2.name) and not (name + '_' + node2.name).endswith('_' + node1.name)"],
+    raises={"ValueError": "auth['type'] not in ['pubkey', 'psk']", "KeyError": None},
+    ensures=[
+        ("key_type_follows_auth", "params['vpnconn_key_type_' + name] == ('PUBLIC' if auth['type'] == 'pubkey' else 'PSK')"),
+        # each side's own identity is the other side's foreign identity, value and type
+        ("psk_identities_are_swapped", f"implies(auth['type'] == 'psk', "
+                                       f"{key('own_id', 'node1')} == auth['left_id'] and {key('foreign_id', 'node2')} == auth['left_id'] and "
+                                       f"{key('own_id', 'node2')} == auth['right_id'] and {key('foreign_id', 'node1')} == auth['right_id'])"),
+        ("psk_identity_types_are_swapped", f"implies(auth['type'] == 'psk', "
+                                           f"{key('own_id_type', 'node1')} == {LEFT_T} and {key('foreign_id_type', 'node2')} == {LEFT_T} and "
+                                           f"{key('own_id_type', 'node2')} == {RIGHT_T} and {key('foreign_id_type', 'node1')} == {RIGHT_T})"),
+        ("shared_secret_is_common", "implies(auth['type'] == 'psk', params['vpnconn_psk_' + name] == auth['psk'])"),
+    ],
+    frame=["Params.p_has", "Params.p_val"], props=["C19"],
+    assumes=["extracted block: the authentication branch of VMTunnel.__init__ (auth given as a dictionary; auth=None sets key type NONE)"],
+)
